@@ -202,9 +202,14 @@ impl<L: LanguageChildren> LanguageChildren for Bind<L> {
 
     fn weak_shape_impl(&mut self, m: &mut (SlotMap, u32)) {
         let s = self.slot;
+        // the bound name may shadow a free slot of the same node that was already numbered.
+        let shadowed = m.0.get(s);
         add_slot(&mut self.slot, m);
         self.elem.weak_shape_impl(m);
         m.0.remove(s);
+        if let Some(x) = shadowed {
+            m.0.insert(s, x);
+        }
     }
 }
 
@@ -270,20 +275,27 @@ pub trait Language: Debug + Clone + Hash + Eq + Ord {
 
     // generated methods:
 
+    // An occurrence is private iff it is not one of the public occurrences.
+    // This is decided by position, not by name: a bound slot may carry the name of a free slot of the same node.
     #[doc(hidden)]
     fn private_slot_occurrences_mut(&mut self) -> Vec<&mut Slot> {
-        let public = self.public_slot_occurrences();
+        let public: HashSet<*const Slot> = self
+            .public_slot_occurrences_mut()
+            .into_iter()
+            .map(|x| &*x as *const Slot)
+            .collect();
         let mut out = self.all_slot_occurrences_mut();
-        out.retain(|x| !public.contains(x));
+        out.retain(|x| !public.contains(&(&**x as *const Slot)));
         out
     }
 
     #[doc(hidden)]
     fn private_slot_occurrences(&self) -> Vec<Slot> {
-        let public = self.public_slot_occurrences();
-        let mut out = self.all_slot_occurrences();
-        out.retain(|x| !public.contains(x));
-        out
+        let mut c = self.clone();
+        c.private_slot_occurrences_mut()
+            .into_iter()
+            .map(|x| *x)
+            .collect()
     }
 
     #[doc(hidden)]
